@@ -19,6 +19,7 @@ import QSP.Model.Completion
 import QSP.Model.Decomp
 import QSP.Model.LinSys
 import QSP.Model.JacErr
+import QSP.Model.JacImpl
 open QSP QSP.Proto
 
 def bad : String := "bad-op"
@@ -283,6 +284,19 @@ def handle (toks : List String) : String :=
   | ["sym.jaccol", par, bits, j, r] =>
     match par.toNat?, bits.toNat?, j.toNat?, parseRatList r with
     | some p, some b, some j, some r => showExcept showRatList (jacCol p b r j)
+    | _, _, _, _ => bad
+  | ["sym.jacimpl", par, pairs2, ct, st] =>
+    -- `gen_poly_jacobian_components`: pairs2 = list of `cos2phi;sin2phi`, (ct, st) = (cos t, sin t)
+    match par.toNat?, parseList parseCx pairs2, parseRat ct, parseRat st with
+    | some p, some ps, some c, some s =>
+      showRatList (JacImpl.jacImplPt p (ps.map fun z => (z.re, z.im)) c s)
+    | _, _, _, _ => bad
+  | ["sym.jacasm", par, d, cosTab, rows] =>
+    -- `gen_jacobian` assembly: rows = the (d+1) sampled rows separated by `;`
+    match par.toNat?, d.toNat?, parseRatList cosTab, (rows.splitOn ";").mapM parseRatList with
+    | some p, some d, some ct, some M =>
+      let r := JacImpl.jacAssemble p d ct ((4 * d : Nat) : Rat) M
+      s!"{showRatList r.1} {";".intercalate (r.2.map showRatList)}"
     | _, _, _, _ => bad
   | ["lin.sys", ldeg, ai, ax] =>
     match ldeg.toNat?, parseRatList ai, parseRatList ax with
